@@ -656,8 +656,12 @@ def ensemble_sift(X, nensembles=4, ensemble_noise=.2, noise_mode='single',
     if max_imfs is None:
         max_imfs = res[0].shape[1]
 
-    imfs = np.zeros((X.shape[0], max_imfs))
-    for ii in range(max_imfs):
+    # Ensemble members can stop at different numbers of IMFs (and before
+    # max_imfs) - average the components which every member contains
+    nimfs = min([max_imfs] + [r.shape[1] for r in res])
+
+    imfs = np.zeros((X.shape[0], nimfs))
+    for ii in range(nimfs):
         imfs[:, ii] = np.array([r[:, ii] for r in res]).mean(axis=0)
 
     return imfs
